@@ -698,7 +698,7 @@ func genPyOnly(s *sink, quick bool) {
 // list of length 0..4 over small pools (exhaustive) and random lists to length 8.
 func genSort(s *sink, quick bool) {
 	if quick {
-		s.coqEvery["sort"], s.pyEvery["sort"] = 9, 2
+		s.coqEvery["sort"], s.pyEvery["sort"] = 18, 2
 	} else {
 		s.coqEvery["sort"], s.pyEvery["sort"] = 12, 2
 	}
@@ -798,7 +798,7 @@ func genSort(s *sink, quick bool) {
 // in every argument position, shorter / equal / longer than the other arguments.
 func genIterables(s *sink, quick bool) {
 	if quick {
-		s.coqEvery["iter"], s.pyEvery["iter"] = 5, 2
+		s.coqEvery["iter"], s.pyEvery["iter"] = 12, 2
 	} else {
 		s.coqEvery["iter"], s.pyEvery["iter"] = 8, 2
 	}
@@ -863,7 +863,7 @@ func genFormat(s *sink, quick bool) {
 	// every n-th format case is also evaluated in Coq: model (Format.v) and specification
 	// (FormatSpec.v) of string.format, with the observed str / repr texts of its arguments
 	if quick {
-		s.coqEvery["format"], s.coqEvery["interp"] = 8, 16
+		s.coqEvery["format"], s.coqEvery["interp"] = 16, 28
 	} else {
 		s.coqEvery["format"], s.coqEvery["interp"] = 40, 60
 	}
@@ -919,6 +919,9 @@ func genFormat(s *sink, quick bool) {
 	// index, never a keyword (the argument sets include these digit strings as keyword names).  Every
 	// case of this class is evaluated in Coq as well.
 	s.coqEvery["format:bignum"], s.pyEvery["format:bignum"] = 1, 1
+	if quick {
+		s.coqEvery["format:bignum"] = 3
+	}
 	bigNames := []string{"9223372036854775806", "9223372036854775807", "9223372036854775808", "9223372036854775809",
 		"18446744073709551615", "18446744073709551616", "18446744073709551617", "18446744073709551618",
 		"10000000000000000000", "99999999999999999999", "184467440737095516160", "184467440737095516161",
